@@ -895,7 +895,11 @@ func isAssertionHelper(fn *ssa.Function) bool {
 					nPanic++
 				case *ssa.If:
 					nIf++
-				case *ssa.Store, *ssa.Send, *ssa.Go, *ssa.Defer, *ssa.MapUpdate, *ssa.Select, *ssa.RunDefers:
+				case *ssa.Store:
+					if !storesIntoOwnAlloc(in) {
+						return false // the argument list of the formatting call is the helper's own fresh memory
+					}
+				case *ssa.Send, *ssa.Go, *ssa.Defer, *ssa.MapUpdate, *ssa.Select, *ssa.RunDefers:
 					return false
 				case *ssa.Call:
 					if bi, isB := in.Call.Value.(*ssa.Builtin); isB && (bi.Name() == "len" || bi.Name() == "cap") {
@@ -915,7 +919,7 @@ func isAssertionHelper(fn *ssa.Function) bool {
 		}
 		// one guarded panic, or a validation helper checking several conditions (one panic each, possibly in a loop
 		// over its arguments): nothing but tests, message formatting and panics
-		return nPanic >= 1 && nIf >= 1 && (nPanic == 1 && nInstr <= 24 || nPanic > 1 && nInstr <= 40*nPanic && nInstr <= 160)
+		return nPanic >= 1 && nIf >= 1 && (nPanic == 1 && nInstr <= 40 || nPanic > 1 && nInstr <= 40*nPanic && nInstr <= 160)
 	}()
 	assertHelperCache.Store(fn, res)
 	return res
@@ -2941,7 +2945,7 @@ func isBookkeepingHelper(fn *ssa.Function, depth int) bool {
 						}
 						break
 					}
-					if al, ok := root.(*ssa.Alloc); !ok || al.Heap {
+					if _, ok := root.(*ssa.Alloc); !ok {
 						return false
 					}
 				case *ssa.UnOp:
@@ -3002,4 +3006,24 @@ func InAtomicSpinLoop(b *ssa.BasicBlock) bool {
 		}
 	}
 	return false
+}
+
+
+// storesIntoOwnAlloc: the store writes into memory the function allocated itself (an element or field of one of its
+// own Allocs - the varargs array of a formatting call).
+func storesIntoOwnAlloc(st *ssa.Store) bool {
+	root := st.Addr
+	for {
+		switch x := root.(type) {
+		case *ssa.IndexAddr:
+			root = x.X
+			continue
+		case *ssa.FieldAddr:
+			root = x.X
+			continue
+		}
+		break
+	}
+	al, ok := root.(*ssa.Alloc)
+	return ok && al.Parent() == st.Parent()
 }
